@@ -1,7 +1,8 @@
 import EzdxfVerif.Model.Flatten
+import EzdxfVerif.Model.FlattenPath
 import EzdxfVerif.Gen.FlattenKernels
 import Drivers.Proto
-open EzdxfVerif.Flatten EzdxfVerif.Gen.FlattenKernels Proto
+open EzdxfVerif.Flatten EzdxfVerif.FlattenPath EzdxfVerif.Gen.FlattenKernels Proto
 
 /-! Line protocol driver of C14.  Rationals travel as `p/q` (or `p`), points as `x:y:z`, lists comma
     separated, table entries as `t=x:y:z`.  One response line per request line:
@@ -11,6 +12,21 @@ open EzdxfVerif.Flatten EzdxfVerif.Gen.FlattenKernels Proto
     tab|beziern|<distance>|<segments>|<budget>|<first>,<last>|<table>
     tab|bspline|<distance>|<segments>|<budget>|<knots>|<table>
     tab|ellipse|<distance>|<segments>|<budget>|<param>,<end_param>,<delta>|<table>
+
+    Path machine (two registers, the operations act on the current one):
+      N v  Path(v)            L v  line_to        M v  move_to       Q e c  curve3_to(e, c)   C e c1 c2  curve4_to
+      Z    close()            S    close_sub_path R    p = p.reversed()
+      X    swap registers     A    p.append_path(q)    E    p.extend_multi_path(q)
+      T r1 r2 r3 b   p = p.transform(m) with the affine map v -> (r1.v, r2.v, r3.v) + b
+    path|<ops ;-separated>                 -> state after EVERY operation, `|`-separated, then `#` and the sub_paths() of the result
+    pflat|<py|pyx>|<distance>|<segments>|<ops>   -> `ok v,v,…` of Path.flattening or `err <exception>`
+    addbez|<4|3>|<ops>|<curves: p0,p1,p2,p3~…>   -> state after add_bezier4p / add_bezier3p
+    bulge|<ops>|<p2>|<arcs: curve~curve^curve~…> -> state after the curve assembly of add_2d_polyline.bulge_to
+    fromv|<0|1>|<vertices>                       -> state of converter.from_vertices(vertices, close)
+    poly2d|<0|1>|<vertices>                      -> state of tools.add_2d_polyline for points without bulges
+    prelude|<start>|<end>|<param_span>|<segments>   -> `none` or `param,end_param,delta` of the ellipse prelude
+    edges|<ops of segment 1>^<ops of segment 2>^…    -> state of from_hatch_edge_path for these edge segments
+    state = start_index,…!commands,…!has_sub_paths!vertices,…
 -/
 
 def parseRat (s : String) : Option Rat :=
@@ -86,16 +102,130 @@ def runTab (kind : String) (d : Rat) (segs budget : Nat) (extra : String) (tab :
   | "bspline" =>
     match parseRats extra with
     | some knots =>
-      let C : Curve (Option V3) := ⟨P, optTest (lineTest vecRelTol vecAbsTol true d)⟩
-      showOutOpt (bsplineFlat C budget npRtol npAtol knots segs (segs + 2))
+      let C : Curve (Option V3) := ⟨P, optTest (chordTest d)⟩
+      showOutOpt (bsplineFlat C budget mathRelTol mathAbsTol knots segs (segs + 2))
     | none => "bad-op knots"
   | "ellipse" =>
     match parseRats extra with
     | some [param, endParam, delta] =>
-      let C : Curve (Option V3) := ⟨P, optTest (lineTest vecRelTol vecAbsTol false d)⟩
+      let C : Curve (Option V3) := ⟨P, optTest (chordTest d)⟩
       showOutOpt (ellipseFlat C budget mathRelTol mathAbsTol param endParam delta (segs + 2))
     | _ => "bad-op param,end,delta"
   | _ => "bad-op kind"
+
+/-! ### Path machine -/
+
+def vClose (a b : V3) : Bool := v3Isclose vecRelTol vecAbsTol a b
+def vExact (a b : V3) : Bool := v3Isclose pathLinearRelTol pathLinearAbsTol a b
+def vCloseRel (a b : V3) : Bool := v3Isclose pathIsCloseTol 0 a b
+def pathTol : Tol V3 := ⟨vClose, vExact⟩
+
+def showNatsC (l : List Nat) : String := ",".intercalate (l.map toString)
+
+def showPath (p : Path V3) : String :=
+  showNatsC p.startIndex ++ "!" ++ showNatsC p.commands ++ "!" ++ (if p.hasSub then "1" else "0") ++ "!" ++
+    ",".intercalate (p.vertices.map showV3)
+
+structure Regs where
+  p : Path V3
+  q : Path V3
+
+def pathOp (r : Regs) (op : String) : Option Regs :=
+  match (op.splitOn " ").filter (· ≠ "") with
+  | ["N", v] => (parseV3 v).map fun v => { r with p := Path.new v }
+  | ["L", v] => (parseV3 v).map fun v => { r with p := r.p.lineTo v }
+  | ["M", v] => (parseV3 v).map fun v => { r with p := r.p.moveTo v }
+  | ["Q", e, c] => match parseV3 e, parseV3 c with
+    | some e, some c => some { r with p := r.p.curve3To e c }
+    | _, _ => none
+  | ["C", e, c1, c2] => match parseV3 e, parseV3 c1, parseV3 c2 with
+    | some e, some c1, some c2 => some { r with p := r.p.curve4To e c1 c2 }
+    | _, _, _ => none
+  | ["T", a, b, c, t] => match parseV3 a, parseV3 b, parseV3 c, parseV3 t with
+    | some a, some b, some c, some t => some { r with p := r.p.mapV (Affine.app ⟨a, b, c, t⟩) }
+    | _, _, _, _ => none
+  | ["Z"] => some { r with p := r.p.closeP vClose }
+  | ["S"] => (r.p.closeSubPath vClose).map fun p => { r with p := p }
+  | ["R"] => some { r with p := r.p.reversed }
+  | ["X"] => some ⟨r.q, r.p⟩
+  | ["A"] => some { r with p := r.p.appendPath vClose r.q }
+  | ["E"] => some { r with p := r.p.extendMultiPath r.q }
+  | _ => none
+
+def zeroV : V3 := ⟨0, 0, 0⟩
+
+def runOps (ops : String) : Option (Regs × List String) :=
+  let go := fun (acc : Option (Regs × List String)) (op : String) =>
+    match acc with
+    | none => none
+    | some (r, out) => match pathOp r op with
+      | none => none
+      | some r' => some (r', showPath r'.p :: out)
+  match (if ops.isEmpty then [] else ops.splitOn ";").foldl go (some (⟨Path.new zeroV, Path.new zeroV⟩, [])) with
+  | some (r, out) => some (r, out.reverse)
+  | none => none
+
+def runPath (ops : String) : String :=
+  match runOps ops with
+  | none => "bad-op path"
+  | some (r, out) =>
+    "|".intercalate out ++ "#" ++ "|".intercalate (r.p.subPaths.map showPath) ++ "#" ++
+      (match r.p.startOfLastSubPath with | some v => showV3 v | none => "-") ++ "#" ++ showV3 r.p.fin
+
+def showPErr : PErr → String
+  | .curve e => showErr e
+  | .stopIteration => "err RuntimeError"
+  | .valueError => "err ValueError"
+
+def cfgOf (twin : String) : Option FlatCfg :=
+  match twin with
+  | "py" => some ⟨fun C => stackSub C 200000, mathRelTol, mathAbsTol, 1000000⟩
+  | "pyx" => some ⟨fun C => recSub C 1001, pyxRelTol, pyxAbsTol, 1000000⟩
+  | _ => none
+
+def runPFlat (twin : String) (d : Rat) (segs : Nat) (ops : String) : String :=
+  match cfgOf twin, runOps ops with
+  | some cfg, some (r, _) =>
+    match pathFlat { cfg with fuel := segs + 2 } d segs r.p with
+    | .ok l => "ok " ++ ",".intercalate (l.map showV3)
+    | .error e => showPErr e
+  | _, _ => "bad-op pflat"
+
+def parseCubic (s : String) : Option (Cubic V3) :=
+  match parseV3s s with
+  | some [a, b, c, d] => some ⟨a, b, c, d⟩
+  | _ => none
+
+def parseQuad (s : String) : Option (Quad V3) :=
+  match parseV3s s with
+  | some [a, b, c] => some ⟨a, b, c⟩
+  | _ => none
+
+def parseList {α : Type} (sep : String) (f : String → Option α) (s : String) : Option (List α) :=
+  if s.isEmpty then some [] else (s.splitOn sep).mapM f
+
+def runAddBez (deg : String) (ops curves : String) : String :=
+  match runOps ops with
+  | none => "bad-op ops"
+  | some (r, _) =>
+    match deg with
+    | "4" => match parseList "~" parseCubic curves with
+      | some cs => showPath (addBezier4p pathTol r.p cs)
+      | none => "bad-op curves"
+    | "3" => match parseList "~" parseQuad curves with
+      | some cs => showPath (addBezier3p pathTol r.p cs)
+      | none => "bad-op curves"
+    | _ => "bad-op degree"
+
+def runBulge (ops p2 arcs : String) : String :=
+  match runOps ops, parseV3 p2, parseList "^" (parseList "~" parseCubic) arcs with
+  | some (r, _), some p2, some arcs => showPath (bulgeTo pathTol vCloseRel r.p p2 arcs)
+  | _, _, _ => "bad-op bulge"
+
+def runFromV (close vs : String) : String :=
+  match parseV3s vs with
+  | some vs => showPath (fromVertices vClose zeroV vs (close == "1"))
+  | none => "bad-op vertices"
 
 def step (line : String) : String :=
   match line.splitOn "|" with
@@ -106,6 +236,29 @@ def step (line : String) : String :=
   | ["tab", kind, d, segs, budget, extra, tab] =>
     match parseRat d, segs.toNat?, budget.toNat?, parseTable tab with
     | some d, some segs, some budget, some tab => runTab kind d segs budget extra tab
+    | _, _, _, _ => "bad-op"
+  | ["path", ops] => runPath ops
+  | ["pflat", twin, d, segs, ops] =>
+    match parseRat d, segs.toNat? with
+    | some d, some segs => runPFlat twin d segs ops
+    | _, _ => "bad-op"
+  | ["addbez", deg, ops, curves] => runAddBez deg ops curves
+  | ["bulge", ops, p2, arcs] => runBulge ops p2 arcs
+  | ["fromv", close, vs] => runFromV close vs
+  | ["poly2d", close, vs] =>
+    match parseV3s vs with
+    | some vs => showPath (polyline2dLines vCloseRel zeroV vs (close == "1"))
+    | none => "bad-op vertices"
+  | ["edges", segs] =>
+    match parseList "^" (fun o => (runOps o).map (fun r => r.1.p)) segs with
+    | some ps => showPath (edgePath vClose zeroV ps)
+    | none => "bad-op segments"
+  | ["prelude", a, b, span, segs] =>
+    match parseRat a, parseRat b, parseRat span, segs.toNat? with
+    | some a, some b, some span, some segs =>
+      (match ellipsePrelude mathRelTol mathAbsTol mathTau a b span segs with
+       | none => "none"
+       | some (p, e, dl) => showRat p ++ "," ++ showRat e ++ "," ++ showRat dl)
     | _, _, _, _ => "bad-op"
   | _ => "bad-op"
 
